@@ -113,6 +113,34 @@ fn faults(bs: &[Backend], orig: &Blob, others: &[Vec<u8>], g: &mut SplitMix64, r
             out.push((format!("drop-front {k}"), x));
         }
     }
+    // bytes inserted or removed INSIDE the blob, at every field boundary of any of the layouts (tag / nonce / salt /
+    // parameters / ephemeral key / encrypted key) and at a few other positions: the total length is part of
+    // the format, and a parser that reads one field from the front and another from the back must not let bytes
+    // in between go unnoticed
+    let mut cuts: Vec<usize> = vec![16, 20, 24, 32, 36, 40, 48, 52, 56, 64, 80, 96, 97, 128];
+    for _ in 0..3 {
+        cuts.push(1 + g.below(orig.data.len().max(2) as u64 - 1) as usize);
+    }
+    cuts.retain(|c| *c > 0 && *c < orig.data.len());
+    cuts.sort();
+    cuts.dedup();
+    for pos in cuts {
+        for k in [1usize, 2, 32] {
+            let mut x = orig.clone();
+            let ins: Vec<u8> = g.bytes(k);
+            x.data.splice(pos..pos, ins);
+            if !(orig.op == "pbkw" && !params_in_budget(b, &x.data)) {
+                out.push((format!("insert {k} at {pos}"), x));
+            }
+            if pos + k <= orig.data.len() {
+                let mut x = orig.clone();
+                x.data.drain(pos..pos + k);
+                if !(orig.op == "pbkw" && (x.data.len() < b.pw_param_off + b.pw_param_len || !params_in_budget(b, &x.data))) {
+                    out.push((format!("delete {k} at {pos}"), x));
+                }
+            }
+        }
+    }
     // header relabel among k1..k4 x {local, secret} (string level: same bytes under another header)
     for (oi, ob) in bs.iter().enumerate() {
         for kind in ["local", "secret"] {
@@ -205,7 +233,7 @@ fn run_fault(bs: &[Backend], m: &mut M, rep: &mut Report, what: &str, x: &Blob, 
 
 pub fn run(ctx: &Ctx) {
     let mut rep = Report::new("C06", &ctx.tier, ctx.seed);
-    rep.rule = "for sampled PIE / PBKW / PKE blobs of every backend (local and secret keys): every single-bit flip of every byte (PBKW parameter flips only within the cost budget iterations <= 4096 / memory <= 1 MiB, passes <= 3, lanes <= 4; the others are counted as skipped), every truncation, extension and front drop, relabel to every other version and kind, other wrapping keys / passwords / recipients and single-bit changes of the secret; every acceptance is a violation; the model must give the same error kind; distinct = (backend, operation, kind, fault kind)".into();
+    rep.rule = "for sampled PIE / PBKW / PKE blobs of every backend (local and secret keys): every single-bit flip of every byte (PBKW parameter flips only within the cost budget iterations <= 4096 / memory <= 1 MiB, passes <= 3, lanes <= 4; the others are counted as skipped), every truncation, extension and front drop, 1 / 2 / 32 bytes inserted or deleted at every field boundary and at random interior positions, relabel to every other version and kind, other wrapping keys / passwords / recipients and single-bit changes of the secret; every acceptance is a violation; the model must give the same error kind; distinct = (backend, operation, kind, fault kind)".into();
     let bs = lab::backends();
     let mut m = M::new(&ctx.model);
     if let Some(path) = &ctx.replay {
